@@ -222,22 +222,22 @@ func (cw *c17World) invariants(parent, ctx sdk.Context, op *c17Op, okOp bool) (b
 			fail("registered-contract-never-disappears", "", "%s", a.Hex())
 		}
 	}
-	if pv, nv := k.GetParams(parent).ProtocolVersion, k.GetParams(ctx).ProtocolVersion; nv < pv {
+	if pv, nv := cw.storedParams(parent).ProtocolVersion, cw.storedParams(ctx).ProtocolVersion; nv < pv {
 		fail("protocol-version-never-decreases", "", "%d -> %d", pv, nv)
 	}
-	if nv := k.GetParams(ctx).ProtocolVersion; nv == 0 || nv > uint32(cpctypes.LatestProtocolCpc) {
+	if nv := cw.storedParams(ctx).ProtocolVersion; nv == 0 || nv > uint32(cpctypes.LatestProtocolCpc) {
 		fail("protocol-version-valid", "", "%d", nv)
 	}
 	// deployment authority
 	if op != nil && okOp && (op.Kind == "deploy-erc20" || op.Kind == "deploy-staking") {
 		allowed := false
-		for _, wl := range k.GetParams(parent).WhitelistedDeployers {
+		for _, wl := range cw.storedParams(parent).WhitelistedDeployers {
 			if wl == cw.auth(op.Authority) {
 				allowed = true
 			}
 		}
 		if !allowed {
-			fail("only-whitelisted-deployers", "", "%s deployed while the whitelist was %v", op.Authority, k.GetParams(parent).WhitelistedDeployers)
+			fail("only-whitelisted-deployers", "", "%s deployed while the whitelist was %v", op.Authority, cw.storedParams(parent).WhitelistedDeployers)
 		}
 	}
 	if op != nil && okOp && op.Kind == "update-params" && op.Authority != "gov" {
@@ -290,6 +290,16 @@ func (cw *c17World) invariants(parent, ctx sdk.Context, op *c17Op, okOp bool) (b
 		}
 	}
 	return bad
+}
+
+// storedParams reads the module parameters straight from the KV store seen through ctx (the oracle must not trust the
+// keeper's own accessor: the governance-controlled whitelist is what the store of that state says).
+func (cw *c17World) storedParams(ctx sdk.Context) (p cpctypes.Params) {
+	bz := ctx.KVStore(cw.w.Keys[cpctypes.StoreKey]).Get(cpctypes.KeyPrefixParams)
+	if len(bz) != 0 {
+		cw.w.Enc.Codec.MustUnmarshal(bz, &p)
+	}
+	return p
 }
 
 func (cw *c17World) probe(ctx sdk.Context, mode string, a common.Address, data []byte) (answered bool, err error) {
